@@ -90,6 +90,16 @@ DELAY_PLANS = [
 ]
 
 
+BIG_DELAY_PLANS = [
+    ("none", []),
+    ("one-long-pause/first-tree", [{"phase": "trees", "op": "inc", "us": 400000, "once": True, "from": 1}]),
+    ("one-long-pause/100th-tree", [{"phase": "trees", "op": "inc", "us": 400000, "once": True, "from": 100}]),
+    ("one-long-pause/first-commit", [{"phase": "Processing commits", "op": "inc", "us": 400000, "once": True, "from": 1}]),
+    ("one-long-pause/first-blob", [{"phase": "blobs", "op": "inc", "us": 400000, "once": True, "from": 1}]),
+    ("one-long-pause/first-tag", [{"phase": "tags", "op": "inc", "us": 400000, "once": True, "from": 1}]),
+]
+
+
 def _delay_job(arg):
     import os
     import random
@@ -103,7 +113,25 @@ def _delay_job(arg):
     os.makedirs(d)
     out = {"obs": [], "inconc": None}
     try:
-        m = G.random_model(rng, size=rng.choice(["small", "medium"]), hostile_names=False, noise=True)
+        plans = DELAY_PLANS
+        if idx == 0:
+            # thousands of small objects in the second pass, and ONE long pause of the consumer: whoever reads ahead has time
+            # to get thousands of objects ahead
+            plans = BIG_DELAY_PLANS
+            pool = G.Pool(rng)
+            m = G.Model()
+            prev = None
+            for ci in range(72):
+                ents = [G.Entry(G.TREE, b"d%02d-%02d" % (ci, j), G.Tree([G.Entry(G.FILE, b"f%d-%d-%s" % (ci, j, b"n" * (j % 9)), pool.new_blob(1 + (ci + j) % 7))]))
+                        for j in range(70)]
+                prev = G.Commit(G.Tree(ents), [prev] if prev else [], cts=1450000000 + ci, msg=b"c%d\n" % ci)
+            m.refs["refs/heads/main"] = prev
+            t_ = prev
+            for ti in range(30):
+                t_ = G.Tag(t_, name=b"n%d" % ti)
+            m.refs["refs/tags/nested"] = t_
+        else:
+            m = G.random_model(rng, size=rng.choice(["small", "medium"]), hostile_names=False, noise=True)
         gitdir = G.write_model(m, os.path.join(d, "repo"), packed_refs=rng.random() < 0.5)
         reach = [o for o in O.reachable(list(m.refs.values())).values() if o.kind == "commit"]
         roots = [rng.choice(reach).oid] if reach and rng.random() < 0.4 else []
@@ -111,13 +139,13 @@ def _delay_job(arg):
         want = {k: ex.sat(k) for k in O.CAPS if k != "reference_count"}
         want["reference_count"] = len(m.refs)
         names = rng.choice(["full", "full", "none", "hash"])
-        cases = [{"id": i, "dir": gitdir, "names": names, "roots": roots, "delays": plan} for i, (_, plan) in enumerate(DELAY_PLANS)]
+        cases = [{"id": i, "dir": gitdir, "names": names, "roots": roots, "delays": plan} for i, (_, plan) in enumerate(plans)]
         obs, rc, err = R.drv(drvbin, "scan", cases, timeout=600)
         if len(obs) != len(cases):
             out["inconc"] = "scan driver answered %d of %d (rc=%s): %r" % (len(obs), len(cases), rc, err[-300:])
             return out
         for o in obs:
-            pname = DELAY_PLANS[o["id"]][0]
+            pname = plans[o["id"]][0]
             rec = {"plan": pname, "want": want, "repo": [seed, idx], "names": names, "roots": roots}
             if "panic" in o or "err" in o:
                 rec["failed"] = o.get("panic") or o.get("err")
